@@ -12,6 +12,212 @@ from .common import Finding, fhex, flist, cbool, coq_list
 DISTS = ["gaussian", "uniform", "rectangle", "lognormal", "schulz", "boltzmann"]
 
 
+
+# ---- fail-closed Python-ast translator for the _weights methods of sasmodels/weights.py ----------------------
+# (grids, masks and density formulas as written in the source -> Coq terms over R, Gen/C02_bodies.v)
+import ast
+import os
+
+class Untranslatable(Exception):
+    pass
+
+CLASSES = {"GaussianDispersion": "gaussian", "UniformDispersion": "uniform", "RectangleDispersion": "rectangle",
+           "LogNormalDispersion": "lognormal", "SchulzDispersion": "schulz", "BoltzmannDispersion": "boltzmann"}
+PARAMS = ["center", "sigma", "lb", "ub"]
+
+def num(v):
+    if isinstance(v, bool) or not isinstance(v, (int, float)):
+        raise Untranslatable("constant %r" % (v,))
+    if isinstance(v, int) or float(v).is_integer():
+        n = int(v)
+        return "%d" % n if n >= 0 else "(- %d)" % -n
+    from fractions import Fraction
+    fr = Fraction(repr(v))            # decimal literal as written, exactly
+    s = "(%d / %d)" % (abs(fr.numerator), fr.denominator)
+    return s if fr >= 0 else "(- %s)" % s
+
+class Tr:
+    def __init__(self):
+        self.env = {}       # local name -> coq term (string)
+        self.grid = None    # ("lin", lb_term, ub_term) | ("uniform",)
+        self.filter = None  # coq boolean-condition term on x, or None
+
+    def name(self, n):
+        if n in self.env:
+            return self.env[n]
+        if n in PARAMS:
+            return n
+        raise Untranslatable("name %s" % n)
+
+    def func(self, f):
+        if isinstance(f, ast.Attribute) and isinstance(f.value, ast.Name) and f.value.id == "np":
+            return f.attr
+        if isinstance(f, ast.Name):
+            return f.id
+        raise Untranslatable("function %s" % ast.dump(f))
+
+    def expr(self, e):
+        if isinstance(e, ast.Constant):
+            return num(e.value)
+        if isinstance(e, ast.Name):
+            return self.name(e.id)
+        if isinstance(e, ast.Attribute) and isinstance(e.value, ast.Name) and e.value.id == "self" and e.attr in ("npts", "nsigmas"):
+            raise Untranslatable("self.%s in a density" % e.attr)
+        if isinstance(e, ast.UnaryOp) and isinstance(e.op, ast.USub):
+            return "(- %s)" % self.expr(e.operand)
+        if isinstance(e, ast.UnaryOp) and isinstance(e.op, ast.UAdd):
+            return self.expr(e.operand)
+        if isinstance(e, ast.BinOp):
+            a = self.expr(e.left)
+            if isinstance(e.op, ast.Pow):
+                if isinstance(e.right, ast.Constant) and isinstance(e.right.value, int) and 0 <= e.right.value <= 8:
+                    return "(%s ^ %d)" % (a, e.right.value)
+                raise Untranslatable("power with a non-literal exponent")
+            b = self.expr(e.right)
+            op = {ast.Add: "+", ast.Sub: "-", ast.Mult: "*", ast.Div: "/"}.get(type(e.op))
+            if op is None:
+                raise Untranslatable("operator %s" % type(e.op).__name__)
+            return "(%s %s %s)" % (a, op, b)
+        if isinstance(e, ast.Call) and not e.keywords:
+            f = self.func(e.func)
+            args = [self.expr(a) for a in e.args]
+            if f in ("exp",) and len(args) == 1:
+                return "(exp %s)" % args[0]
+            if f in ("log",) and len(args) == 1:
+                return "(ln %s)" % args[0]
+            if f in ("abs", "fabs") and len(args) == 1:
+                return "(Rabs %s)" % args[0]
+            if f == "sqrt" and len(args) == 1:
+                return "(sqrt %s)" % args[0]
+            if f == "gammaln" and len(args) == 1:
+                return "(lgam %s)" % args[0]
+            if f == "max" and len(args) == 2:
+                return "(Rmax %s %s)" % tuple(args)
+            if f == "ones_like" and len(args) == 1:
+                return "1"
+            raise Untranslatable("call %s/%d" % (f, len(args)))
+        raise Untranslatable(ast.dump(e)[:80])
+
+    def cond(self, e):
+        # boolean mask over x
+        if isinstance(e, ast.BinOp) and isinstance(e.op, ast.BitAnd):
+            return "(%s && %s)" % (self.cond(e.left), self.cond(e.right))
+        if isinstance(e, ast.Compare) and len(e.ops) == 1:
+            a, b = self.expr(e.left), self.expr(e.comparators[0])
+            if isinstance(e.ops[0], ast.LtE):
+                return "(Rleb %s %s)" % (a, b)
+            if isinstance(e.ops[0], ast.GtE):
+                return "(Rleb %s %s)" % (b, a)
+        raise Untranslatable("mask %s" % ast.dump(e)[:80])
+
+    def grid_call(self, e):
+        """x = self._linspace(center, sigma, lo, hi) | np.linspace(center-sigma, center+sigma, self.npts)"""
+        if isinstance(e, ast.Call) and isinstance(e.func, ast.Attribute) and isinstance(e.func.value, ast.Name):
+            if e.func.value.id == "self" and e.func.attr == "_linspace" and len(e.args) == 4:
+                c, s, lo, hi = [self.expr(a) for a in e.args]
+                if (c, s) != ("center", "sigma"):
+                    raise Untranslatable("_linspace centre/width arguments")
+                return ("lin", lo, hi)
+            if e.func.value.id == "np" and e.func.attr == "linspace" and len(e.args) == 3:
+                a, b = self.expr(e.args[0]), self.expr(e.args[1])
+                n = e.args[2]
+                if not (isinstance(n, ast.Attribute) and isinstance(n.value, ast.Name) and n.value.id == "self" and n.attr == "npts"):
+                    raise Untranslatable("linspace count")
+                return ("linspace", a, b)
+        raise Untranslatable("grid %s" % ast.dump(e)[:80])
+
+def translate_method(fn):
+    t = Tr()
+    args = [a.arg for a in fn.args.args]
+    if args != ["self"] + PARAMS:
+        raise Untranslatable("signature %s" % args)
+    px = None
+    for st in fn.body:
+        if isinstance(st, ast.Expr) and isinstance(st.value, ast.Constant) and isinstance(st.value.value, str):
+            continue
+        if isinstance(st, ast.Assign) and len(st.targets) == 1 and isinstance(st.targets[0], ast.Name):
+            tgt = st.targets[0].id
+            v = st.value
+            if tgt == "x":
+                # grid, limit mask, or support mask
+                if isinstance(v, ast.Subscript) and isinstance(v.value, ast.Name) and v.value.id == "x":
+                    c = t.cond(v.slice)
+                    if t.filter is not None or t.grid is None:
+                        raise Untranslatable("second mask")
+                    t.filter = c
+                else:
+                    if t.grid is not None:
+                        raise Untranslatable("grid assigned twice")
+                    t.grid = t.grid_call(v)
+                    t.env["x"] = "x"
+            else:
+                t.env[tgt] = t.expr(v)
+            continue
+        if isinstance(st, ast.Return) and isinstance(st.value, ast.Tuple) and len(st.value.elts) == 2:
+            if not (isinstance(st.value.elts[0], ast.Name) and st.value.elts[0].id == "x"):
+                raise Untranslatable("first returned value is not x")
+            px = t.expr(st.value.elts[1])
+            continue
+        raise Untranslatable("statement %s" % ast.dump(st)[:80])
+    if px is None or t.grid is None:
+        raise Untranslatable("no grid / density")
+    return t.grid, t.filter, px
+
+def translate(path):
+    tree = ast.parse(open(path).read())
+    out = {}
+    for node in tree.body:
+        if isinstance(node, ast.ClassDef) and node.name in CLASSES:
+            for it in node.body:
+                if isinstance(it, ast.FunctionDef) and it.name == "_weights":
+                    out[CLASSES[node.name]] = translate_method(it)
+    missing = set(CLASSES.values()) - set(out)
+    if missing:
+        raise Untranslatable("classes without _weights: %s" % sorted(missing))
+    return out
+
+
+
+def gen():
+    """Regenerate Gen/C02_bodies.v from the current weights.py.  When a body uses syntax outside the whitelist
+    the file says so (translated := false) and the obligations over it are vacuous: the behavioural tie decides."""
+    path = os.path.join(common.REPO, "sasmodels", "weights.py")
+    lines = ["(* GENERATED by harness/c02.py from sasmodels/weights.py: the _weights methods of the six parametric",
+             "   distributions (grid construction, masks, density formula), translated term by term. *)",
+             "From Coq Require Import Reals List Bool.", "Import ListNotations.",
+             "From SM Require Import Base.Num C02.Model C02.Density.", "Open Scope R_scope.", ""]
+    try:
+        tr = translate(path)
+        note = None
+    except (Untranslatable, SyntaxError, OSError) as exc:
+        tr, note = None, str(exc)
+    if tr is None:
+        lines += ["Definition translated : bool := false.", "(* not translated: %s *)" % note.replace("*)", "* )"), ""]
+        # placeholders equal to the model, so that the dependent file still compiles
+        tr = {}
+    else:
+        lines += ["Definition translated : bool := true.", ""]
+    lines += ["Section Bodies.", "  Variable lgam : R -> R.     (* scipy.special.gammaln *)", ""]
+    for dist in ["gaussian", "uniform", "rectangle", "lognormal", "schulz", "boltzmann"]:
+        cap = dist.capitalize()
+        if dist not in tr:
+            lines += ["  Definition gen_px_%s (x center sigma lb ub : R) : R := model_px lgam %s center sigma x." % (dist, cap),
+                      "  Definition gen_grid_%s (center sigma nsig : R) (npts : nat) (lb ub : R) : list R := grid ROps (sqrt 3) 1e-8 %s center sigma nsig npts lb ub." % (dist, cap), ""]
+            continue
+        grid, mask, px = tr[dist]
+        if grid[0] == "lin":
+            g = "lin ROps center sigma nsig npts %s %s" % (grid[1], grid[2])
+        else:
+            g = "linspace ROps %s %s npts" % (grid[1], grid[2])
+        if mask is not None:
+            g = "filter (fun x => %s) (%s)" % (mask, g)
+        lines += ["  Definition gen_px_%s (x center sigma lb ub : R) : R := %s." % (dist, px),
+                  "  Definition gen_grid_%s (center sigma nsig : R) (npts : nat) (lb ub : R) : list R := %s." % (dist, g), ""]
+    lines += ["End Bodies.", ""]
+    common.write_if_changed(os.path.join(common.THEORIES, "Gen", "C02_bodies.v"), "\n".join(lines))
+    return note
+
+
 def documented_density(name, x, c, sigma):
     """The densities named in the property, from scipy.stats (up to a constant)."""
     from scipy import stats
@@ -66,7 +272,10 @@ def main(run):
     from scipy.special import gammaln
     rng = random.Random(run.seed * 13 + 2)
     thorough = run.tier == "thorough"
-    run.prove(["C02/Property.v"])
+    note = [None]
+    run.prove(["C02/Property.v"], gen=lambda: note.__setitem__(0, gen()))
+    if note[0]:
+        run.notes.append("weights.py bodies not translated (%s): the regenerated-formula obligations are vacuous in this run, the behavioural tie decides" % note[0])
     ncase = 400 if not thorough else 6000
     cases = [gen_case(rng) for _ in range(ncase)]
     # a few fixed edge cases first
